@@ -86,7 +86,7 @@ func (t Time) ToIndex(index S) *TimeIndex {
 func (t Time) Filter(idxs []int) Time {
 	ret := make(Time, len(idxs))
 	for i, idx := range idxs {
-		if idx >= len(t) {
+		if idx < 0 || idx >= len(t) {
 			continue
 		}
 		ret[i] = t[idx]
@@ -110,7 +110,7 @@ func (t Time) Sum(idxs []int) uint64 {
 	// selective sum
 	var sum uint64
 	for _, idx := range idxs {
-		if idx >= len(t) {
+		if idx < 0 || idx >= len(t) {
 			continue
 		}
 		sum += t[idx]
@@ -192,6 +192,10 @@ func (t Time) Equal(strict bool, time2 Time) bool {
 	}
 
 	for i, t1 := range t {
+		// compare the shared part only
+		if len(time2) <= i {
+			break
+		}
 		if t1 != time2[i] {
 			return false
 		}
@@ -228,7 +232,7 @@ func (t Time) Is(idxs []int) bool {
 
 	for _, idx := range idxs {
 		// -1 is not found or mach disposed
-		if idx == -1 {
+		if idx == -1 || idx >= len(t) {
 			return false
 		}
 		if !IsActiveTick(t[idx]) {
@@ -247,7 +251,7 @@ func (t Time) Not(idxs []int) bool {
 
 	for _, idx := range idxs {
 		// -1 is not found or mach disposed
-		if idx != -1 && IsActiveTick(t[idx]) {
+		if idx != -1 && idx < len(t) && IsActiveTick(t[idx]) {
 			return false
 		}
 	}
